@@ -1,0 +1,179 @@
+//go:build verif
+
+// Contracts for trait/pair (property C15). Comment-only file: see /verif/DESIGN.md section 2.1.
+//
+// A key-value iterator has abstract state kv: the non-empty list of (key, value) pairs from
+// the current one on (done is shared with seq.Seq). Key() and Value() are the two
+// components of the same head element; nil is the empty list.
+
+package pair
+
+//@ fileprops C15
+
+//@ interface Seq
+//@   state kv : List[Pair[K,V]]
+//@   method Key
+//@     pure
+//@     requires !done(self) && kv(self) != []
+//@     ensures current_key: result == fst(hd(kv(self)))
+//@   method Value
+//@     pure
+//@     requires !done(self) && kv(self) != []
+//@     ensures current_value: result == snd(hd(kv(self)))
+//@   method Next
+//@     requires !done(self) && kv(self) != []
+//@     modifies kv(self), done(self)
+//@     opt set done(self) = !result
+//@     ensures more: result == (tl(old(kv(self))) != [])
+//@     ensures advance: result ==> kv(self) == tl(old(kv(self)))
+
+//@ type pair implements Seq
+//@   model kv(self) = [pair(self.key, self.val)]
+
+//@ type *takeWhile implements Seq
+//@   objinv !done(self) ==> self.f != nil && self.Seq != nil && self.Seq != self && !done(self.Seq) && kv(self.Seq) != [] && app(self.f, fst(hd(kv(self.Seq))), snd(hd(kv(self.Seq))))
+//@   model kv(self) = takew(self.f, kv(self.Seq))
+
+//@ type filter implements Seq
+//@   objinv !done(self) ==> self.f != nil && self.Seq != nil && self.Seq != self && !done(self.Seq) && kv(self.Seq) != [] && app(self.f, fst(hd(kv(self.Seq))), snd(hd(kv(self.Seq))))
+//@   model kv(self) = filter(self.f, kv(self.Seq))
+
+//@ type fmap implements Seq
+//@   objinv !done(self) ==> self.Seq != nil && self.Seq != self && !done(self.Seq) && kv(self.Seq) != []
+//@   model kv(self) = mapv(self.f, kv(self.Seq))
+
+//@ type *plus implements Seq
+//@   objinv !done(self) ==> self.Seq != nil && self.Seq != self && !done(self.Seq) && kv(self.Seq) != []
+//@   objinv !done(self) && self.rhs != nil ==> self.rhs != self && self.rhs != self.Seq && !done(self.rhs) && kv(self.rhs) != []
+//@   model kv(self) = kv(self.Seq) ++ seqlist(self.rhs, kv)
+
+//@ type *join implements Seq
+//@   objinv !done(self) ==> self.Seq != nil && self.Seq != self && !done(self.Seq) && kv(self.Seq) != []
+//@   objinv !done(self) ==> self.lhs != nil && self.lhs != self && self.lhs != self.Seq && !done(self.lhs) && kv(self.lhs) != []
+//@   model kv(self) = kv(self.Seq) ++ flatmap(self.rhs, tl(kv(self.lhs)))
+
+//@ type *toSeq implements seq.Seq
+//@   objinv !done(self) ==> self.Seq != nil && self.Seq != self && !done(self.Seq) && view(self.Seq) != []
+//@   objinv !done(self) ==> self.lhs != nil && self.lhs != self && self.lhs != self.Seq && !done(self.lhs) && kv(self.lhs) != []
+//@   model view(self) = view(self.Seq) ++ flatmap(self.rhs, tl(kv(self.lhs)))
+
+//@ type *fromSeq implements Seq
+//@   objinv !done(self) ==> self.Seq != nil && self.Seq != self && !done(self.Seq) && kv(self.Seq) != []
+//@   objinv !done(self) ==> self.lhs != nil && self.lhs != self && self.lhs != self.Seq && !done(self.lhs) && view(self.lhs) != []
+//@   model kv(self) = kv(self.Seq) ++ flatmap(self.rhs, tl(view(self.lhs)))
+
+// ---- loops inside methods ----
+
+//@ func (filter) Next
+//@   opt via=subtype
+//@   loop 0 invariant !done(self.Seq) && kv(self.Seq) != [] && filter(self.f, tl(kv(self.Seq))) == tl(old(kv(self)))
+//@   loop 0 decreases len(kv(self.Seq))
+
+//@ func (*plus) Next
+//@   opt via=subtype
+//@   opt lemmas=cat_nil
+
+//@ func (*join) Next
+//@   opt via=subtype
+//@   loop 0 invariant self.lhs == old(self.lhs) && self.rhs == old(self.rhs) && self.lhs != self && !done(self.lhs) && kv(self.lhs) != [] && flatmap(self.rhs, tl(kv(self.lhs))) == tl(old(kv(self)))
+//@   loop 0 decreases len(kv(self.lhs))
+//@   fn rhs:
+//@     ensures (result == nil) == (rhsview(rhs, $1, $2) == [])
+//@     ensures result != nil ==> fresh(result) && !done(result) && kv(result) == rhsview(rhs, $1, $2)
+
+//@ func (*toSeq) Next
+//@   opt via=subtype
+//@   loop 0 invariant self.lhs == old(self.lhs) && self.rhs == old(self.rhs) && self.lhs != self && !done(self.lhs) && kv(self.lhs) != [] && flatmap(self.rhs, tl(kv(self.lhs))) == tl(old(view(self)))
+//@   loop 0 decreases len(kv(self.lhs))
+//@   fn rhs:
+//@     ensures (result == nil) == (rhsview(rhs, $1, $2) == [])
+//@     ensures result != nil ==> fresh(result) && !done(result) && view(result) == rhsview(rhs, $1, $2)
+
+//@ func (*fromSeq) Next
+//@   opt via=subtype
+//@   loop 0 invariant self.lhs == old(self.lhs) && self.rhs == old(self.rhs) && self.lhs != self && !done(self.lhs) && view(self.lhs) != [] && flatmap(self.rhs, tl(view(self.lhs))) == tl(old(kv(self)))
+//@   loop 0 decreases len(view(self.lhs))
+//@   fn rhs:
+//@     ensures (result == nil) == (rhsview(rhs, $1) == [])
+//@     ensures result != nil ==> fresh(result) && !done(result) && kv(result) == rhsview(rhs, $1)
+
+// ---- constructors ----
+
+//@ func From
+//@   ensures result != nil && !done(result)
+//@   ensures list: kv(result) == [pair(key, val)]
+
+//@ func TakeWhile
+//@   requires f != nil
+//@   requires seq != nil ==> !done(seq) && kv(seq) != []
+//@   ensures result != nil ==> !done(result) && kv(result) != []
+//@   ensures list: seqlist(result, kv) == takew(f, old(seqlist(seq, kv)))
+
+//@ func DropWhile
+//@   requires seq != nil ==> !done(seq) && kv(seq) != []
+//@   ensures result != nil ==> !done(result) && kv(result) != []
+//@   ensures list: seqlist(result, kv) == dropw(f, old(seqlist(seq, kv)))
+//@   loop 0 invariant !done(seq) && kv(seq) != [] && dropw(f, kv(seq)) == dropw(f, old(kv(seq)))
+//@   loop 0 decreases len(kv(seq))
+
+//@ func Filter
+//@   requires f != nil
+//@   requires seq != nil ==> !done(seq) && kv(seq) != []
+//@   ensures result != nil ==> !done(result) && kv(result) != []
+//@   ensures list: seqlist(result, kv) == filter(f, old(seqlist(seq, kv)))
+//@   loop 0 invariant !done(seq) && kv(seq) != [] && filter(f, kv(seq)) == filter(f, old(kv(seq)))
+//@   loop 0 decreases len(kv(seq))
+
+// Map changes values but never keys
+//@ func Map
+//@   requires seq != nil ==> !done(seq) && kv(seq) != []
+//@   ensures result != nil ==> !done(result) && kv(result) != []
+//@   ensures list: seqlist(result, kv) == mapv(f, old(seqlist(seq, kv)))
+
+//@ func Plus
+//@   opt lemmas=cat_nil
+//@   requires lhs != nil ==> !done(lhs) && kv(lhs) != []
+//@   requires rhs != nil ==> !done(rhs) && kv(rhs) != []
+//@   requires lhs != nil && rhs != nil ==> lhs != rhs
+//@   ensures result != nil ==> !done(result) && kv(result) != []
+//@   ensures list: seqlist(result, kv) == old(seqlist(lhs, kv)) ++ old(seqlist(rhs, kv))
+
+//@ func Join
+//@   requires lhs != nil ==> !done(lhs) && kv(lhs) != []
+//@   ensures result != nil ==> !done(result) && kv(result) != []
+//@   ensures list: seqlist(result, kv) == flatmap(rhs, old(seqlist(lhs, kv)))
+//@   loop 0 invariant join.lhs == lhs && join.rhs == rhs && join != lhs && !done(lhs) && kv(lhs) != [] && flatmap(rhs, kv(lhs)) == flatmap(rhs, old(kv(lhs)))
+//@   loop 0 decreases len(kv(lhs))
+//@   fn rhs:
+//@     ensures (result == nil) == (rhsview(rhs, $1, $2) == [])
+//@     ensures result != nil ==> fresh(result) && !done(result) && kv(result) == rhsview(rhs, $1, $2)
+
+//@ func ToSeq
+//@   requires lhs != nil ==> !done(lhs) && kv(lhs) != []
+//@   ensures result != nil ==> !done(result) && view(result) != []
+//@   ensures list: seqlist(result) == flatmap(rhs, old(seqlist(lhs, kv)))
+//@   loop 0 invariant join.lhs == lhs && join.rhs == rhs && join != lhs && !done(lhs) && kv(lhs) != [] && flatmap(rhs, kv(lhs)) == flatmap(rhs, old(kv(lhs)))
+//@   loop 0 decreases len(kv(lhs))
+//@   fn rhs:
+//@     ensures (result == nil) == (rhsview(rhs, $1, $2) == [])
+//@     ensures result != nil ==> fresh(result) && !done(result) && view(result) == rhsview(rhs, $1, $2)
+
+//@ func FromSeq
+//@   requires lhs != nil ==> !done(lhs) && view(lhs) != []
+//@   ensures result != nil ==> !done(result) && kv(result) != []
+//@   ensures list: seqlist(result, kv) == flatmap(rhs, old(seqlist(lhs)))
+//@   loop 0 invariant join.lhs == lhs && join.rhs == rhs && join != lhs && !done(lhs) && view(lhs) != [] && flatmap(rhs, view(lhs)) == flatmap(rhs, old(view(lhs)))
+//@   loop 0 decreases len(view(lhs))
+//@   fn rhs:
+//@     ensures (result == nil) == (rhsview(rhs, $1) == [])
+//@     ensures result != nil ==> fresh(result) && !done(result) && kv(result) == rhsview(rhs, $1)
+
+// ForEach visits the list in order, with matching key and value, and stops at the first error
+//@ func ForEach
+//@   opt calltrace=on
+//@   requires seq != nil ==> !done(seq) && kv(seq) != []
+//@   ensures visits_in_order_until_first_error: calls == evl(f, old(calls), untilerr(f, old(seqlist(seq, kv))))
+//@   ensures returns_first_error: result == firsterr(f, old(seqlist(seq, kv)))
+//@   loop 0 invariant has ==> seq != nil && !done(seq) && kv(seq) != []
+//@   loop 0 invariant evl(f, calls, untilerr(f, ite(has, kv(seq), []))) == evl(f, old(calls), untilerr(f, old(seqlist(seq, kv))))
+//@   loop 0 invariant firsterr(f, ite(has, kv(seq), [])) == firsterr(f, old(seqlist(seq, kv)))
